@@ -27,11 +27,14 @@ Already known ideas that you must NOT reuse (find something genuinely different 
 KNOWN_IDEAS
 Prefer a trigger that is a multi-step history, an unusual parameter combination, a boundary value, a fault at a particular point, or a particular interleaving. Any Go construct is allowed in the change (channels, sync.Cond, atomics, goroutines, timers) as long as a maintainer could plausibly have written it.
 '''
-for p in props:
+hints = {'b': '\nAnother person is working on the same property at the same time; to avoid producing the same idea, prefer a change OUTSIDE the file that looks most obviously responsible for the property (a helper, a data structure, the AST evaluation in internal/base, the data context, the builder) and a trigger that involves an unusual SHAPE of input (sizes, nesting, repetition, aliasing of caller-provided values, kinds of rule statements) rather than timing.\n'}
+for item in props:
+    p, _, variant = item.partition(':')
     k = '\n'.join('  (%d) %s' % (i + 1, x) for i, x in enumerate(known.get(p, [])))
-    t = (base + extra).replace('WORKTREE', '/tmp/seed%s-%s' % (wave, p)).replace('OUTDIR', '/tmp/seed%s-%s-out' % (wave, p)) \
+    t = (base + extra).replace('WORKTREE', '/tmp/seed%s-%s%s' % (wave, p, variant)).replace('OUTDIR', '/tmp/seed%s-%s%s-out' % (wave, p, variant)) \
         .replace('PROPERTY_TEXT', ptxt[p]).replace('PROPID', p).replace('KNOWN_IDEAS', k)
     if p == 'C19':
         t += '\nNote for this property: demonstrate with `go test -race -mod=mod -vet=off -count=1 ./test/seeded/` (fails under -race with the change, passes under -race without it) and say so in meta.json demo_cmd.\n'
-    open('/tmp/seed%s-prompt-%s.txt' % (wave, p), 'w').write(t)
-print({p: len(known.get(p, [])) for p in props})
+    t += hints.get(variant, '')
+    open('/tmp/seed%s-prompt-%s%s.txt' % (wave, p, variant), 'w').write(t)
+print({p: len(known.get(p.partition(':')[0], [])) for p in props})
